@@ -28,6 +28,10 @@ class C05(Prop):
     pid = "C05"
     coq_targets = ["Props/C05.vo"]
     harness = "sync"
+    level_text = ("Coq theorems c05_line / c05_crlf / c05_null / c05_facts: for every byte list and both overflow profiles the model of each "
+                  "deframer returns exactly the first-terminator answer, never errs or panics, and is prefix-stable, local and minimal "
+                  "(df_first_facts, also the contract record C02/C06/C07 consume). Tie: model and compiled crate (dev+release) agree on all "
+                  "strings up to a length bound over a terminator-rich alphabet plus random long strings over all 256 values.")
     family_doc = "DF: deframer(which, bytes) -> return value"
     nontrivial_rule = ("exhaustive byte strings up to a length bound over {a,CR,LF,NUL,0xFF} for each of the three deframers, "
                        "plus random strings over all 256 values (terminator-weighted, length <= 300); "
